@@ -9,7 +9,7 @@ use serde_json::{json, Value as J};
 
 pub static PROP: Prop = Prop {
     id: "C07",
-    rule: "cases: programs (1-5 statements, trees of depth <= 4, every compound operand parenthesised) in which observable nodes sit at every kind of position: calls t_i(args) and bare names t_i bound to logging context functions (some shadowing global functions), logging global functions vh_g_i(args), logging prefix/infix/postfix operators and a logging SETTER operator, as operands of every built-in infix operator (&& and || included), call arguments, list elements, map keys and values, condition and both branches of conditionals, statements, right sides of assignments; every logger returns a preset value of the type its position needs; in half of the cases one logger, chosen by its position k in the call order, is armed to return Err. Oracle: the call log predicted by the reference traversal (post-order, children left to right, handler after its operands with exactly the operand values, key before value, only the selected branch): without fault the logs must be equal (same calls, same order, same arguments => each once, left to right); with a fault at k the result must be Err, the log must be the expected prefix of length k+1 and the context must equal the model's. Non-trivial: >= 3 observable nodes and (an observable inside an operand of another observable, or a conditional with observables in both branches, or an armed fault that is not the last call); distinct by (program skeleton, k).",
+    rule: "cases: programs (1-5 statements, trees of depth <= 4, every compound operand parenthesised) in which observable nodes sit at every kind of position: calls t_i(args) and bare names t_i bound to logging context functions (some shadowing global functions), logging global functions vh_g_i(args), logging prefix/infix/postfix operators (one infix operator registered LEFT-, one RIGHT-associative) and a logging SETTER operator, as operands of every built-in infix operator (&& and || included), call arguments, list elements, map keys and values, condition and both branches of conditionals, statements, right sides of assignments; every logger returns a preset value of the type its position needs; in half of the cases one logger, chosen by its position k in the call order, is armed to return Err. Oracle: the call log predicted by the reference traversal (post-order, children left to right, handler after its operands with exactly the operand values, key before value, only the selected branch): without fault the logs must be equal (same calls, same order, same arguments => each once, left to right); with a fault at k the result must be Err, the log must be the expected prefix of length k+1 and the context must equal the model's. Non-trivial: >= 3 observable nodes and (an observable inside an operand of another observable, or a conditional with observables in both branches, or an armed fault that is not the last call); distinct by (program skeleton, k).",
     assumptions: &[
         "no observable is placed under an assignment whose target is not a plain name, and no assignment targets a name bound to a context function (the statements do not pin what runs there)",
         "cases whose reference outcome is unspecified (rounding, inexact quotient) are excluded and counted",
